@@ -159,8 +159,7 @@ void h_next(void)
 
 NEXT_RULES = [
     X.drop_trace,
-    X.Rule('vector<const definition*> local', r'\bstd::vector<const definition\*>\s+(\w+)\s*;',
-           r'vec_defp \1; \1.n = 0;', 2, 2),
+    X.vector_locals(r'const\s+definition\s*\*', 'vec_defp', 2),
     X.Rule('std::transform(address-of) -> loop',
            r'std::transform\(\s*([\w.]+)\.begin\(\),\s*\1\.end\(\),\s*std::back_inserter\((\w+)\),\s*'
            r'\[\]\(const definition&\s*(\w+)\)\s*\{\s*return\s+&\3;\s*\}\s*\);',
@@ -287,8 +286,7 @@ void h_leaf(void)
 
 LEAF_RULES = [
     X.drop_trace,
-    X.Rule('vector<const definition*> local', r'\bstd::vector<const definition\*>\s+(\w+)\s*;',
-           r'vec_defp \1; \1.n = 0;', 1, 1),
+    X.vector_locals(r'const\s+definition\s*\*', 'vec_defp', 1),
     X.range_for_by_ref('cdefinition', 1),
     X.Rule('auto x = best(v)', r'\bauto\s+(\w+)\s*=\s*best\((\w+)\);', r'vec_defp \1 = best(&\2);', 1, 1),
     X.Rule('result[0]', r'\bspecs\[0\]', r'specs.data[0]', 1, 1),
